@@ -21,18 +21,24 @@ CLAIMED = {
              "assert the BigUint arms are unreachable from 64-bit operands.",
         design_ref="DESIGN.md 2 (C17)"),
     "C18": dict(
-        level="model_checking", engine="kani-cbmc", technique=KANI,
-        text="The 25 multi-word helpers of simulator/src/wide_ops.rs (the run-time evaluation kernel for values "
-             "wider than 128 bits) are executed symbolically on exact-size, misaligned buffers and compared with a "
-             "reference that carries at bit 128 instead of at 64-bit limbs, for ALL limb contents and shift "
-             "amounts at 2 and 3 limbs (thorough: 1..4) and every width whose top bit lies in the top limb; "
-             "CBMC's pointer checks decide the no-over-read clauses. Interpreter evaluation at <=64 bits is the "
-             "C17 kernel (same function).",
-        note="Outside the claim: Cranelift and AOT-C code generation (run-time generated machine code), interpreter "
-             "evaluation above 64 bits (BigUint), multi-operator expressions; wide_mul with both operands symbolic "
-             "only at 1 limb, otherwise one operand is a symbolic 3-bit value at a fixed position. Assumes the "
-             "documented precondition 'operands zero-padded above width'.",
-        design_ref="DESIGN.md 2 (C18)"),
+        level="model_checking", engine="kani-cbmc",
+        technique=KANI + "; plus translation validation of the Cranelift IR the JIT emits (CLIF -> SMT, z3) against "
+                         "word-level RTL terms, replayed natively JIT-vs-interpreter",
+        text="(a) The 25 multi-word helpers of simulator/src/wide_ops.rs (run-time kernel above 128 bits) are executed "
+             "symbolically on exact-size, misaligned buffers and compared with a reference that carries at bit 128 "
+             "instead of at 64-bit limbs, for ALL limb contents and shift amounts at 2 and 3 limbs (thorough: 1..4) and "
+             "every width whose top bit lies in the top limb; CBMC's pointer checks decide the no-over-read clauses. "
+             "(b) For ~380 comb-only designs (every operator x widths 1..128 x signedness, shift amounts reaching and "
+             "exceeding the width, mixed widths, ternaries, concatenations) the Cranelift IR the REAL JIT front end "
+             "emits is given a bit-vector semantics and z3 decides, for ALL input values, that the stored outputs "
+             "equal the RTL terms; a model is replayed on the real JIT engine against the real interpreter. "
+             "(c) Interpreter evaluation at <=64 bits is the C17 kernel (same function).",
+        note="Outside the claim: what Cranelift does below its IR (instruction selection, register allocation), the "
+             "AOT-C back end, sequential/hierarchical designs and designs using the wide_* helper calls in the CLIF "
+             "check (comb-only, <=128-bit subset of tv/clif.py), interpreter evaluation above 64 bits (BigUint); "
+             "wide_mul with both operands symbolic only at 1 limb. Assumes the documented precondition 'operands "
+             "zero-padded above width' and that buffer cells hold width-clean values.",
+        design_ref="DESIGN.md 2 (C18), 6.6"),
     "C36": dict(
         level="model_checking", engine="kani-cbmc", technique=KANI,
         text="DPI svLogicVecVal <-> Value conversion is checked bit by bit against the IEEE 1800 Annex H table "
@@ -78,17 +84,21 @@ CLAIMED = {
              "symbolic base seed does not finish in the SAT back end (ten chained 64-bit constant multiplications).",
         design_ref="DESIGN.md 2 (C32)"),
     "C21": dict(
-        level="model_checking", engine="kani-cbmc", technique=KANI,
-        text="The NPN pattern algebra the AIG rewriter relies on (the real aig/npn4.rs): perm_tt, flip_inputs and "
+        level="model_checking", engine="kani-cbmc",
+        technique=KANI + "; plus translation validation of the real aig passes (AIG and netlist SAT miters, z3)",
+        text="(a) The NPN pattern algebra the AIG rewriter relies on (the real aig/npn4.rs): perm_tt, flip_inputs and "
              "NpnTransform::apply are the defining variable substitutions for ALL truth tables, AigPattern::tt is "
              "the function of the pattern's DAG, and transform_pattern(p,t).tt() == t.apply(p.tt()) for EVERY "
-             "pattern with 0..3 AND nodes and every one of the 768 transforms (per permutation, in_neg/out_neg and "
-             "all edges symbolic).",
-        note="Outside the claim: npn_canonical and the lazily built library (24x65536-entry table and ~8e5-program "
-             "enumeration at first use: not symbolically executable; the property's own quantifier there is an "
-             "exhaustive enumeration), and rewrite/techmap on netlists -- the `aig` cargo feature does not compile "
-             "on the pinned tree (see DESIGN.md known findings).",
-        design_ref="DESIGN.md 2 (C21)"),
+             "pattern with 0..3 AND nodes and every one of the 768 transforms. (b) With the synthesizer built with "
+             "--features aig, for ~470 corpus modules the real aigify -> rewrite -> aig_to_cells_techmap (and the "
+             "plain round trip) are run and z3 decides that every sink of the rewritten AIG and every output / "
+             "flip-flop D / RAM pin of the re-mapped netlist computes the same Boolean function, for all inputs and "
+             "states; a model is re-evaluated natively on the dumped objects.",
+        note="Outside the claim: that npn_canonical returns the LEAST table of the class and that every library entry "
+             "computes its recorded table, as standalone statements (24x65536-entry table / ~8e5-program enumeration "
+             "at first use: not symbolically executable; their use inside rewrite IS covered by (b) for the corpus). "
+             "The quantifier over netlists is the corpus.",
+        design_ref="DESIGN.md 2 (C21), 6.7"),
     "C19": dict(
         level="translation_validation", engine="tv-miter",
         technique="translation validation: the real synthesizer's netlists vs word-level RTL terms and vs each other, "
